@@ -343,6 +343,51 @@ def _secured_orders(secured, payload, cuts, pri_crc, viol, keys):
                     viol('altered-secured-bundle-delivered', 'fragment %d altered, %d bundles delivered' % (altered, len(got)), case)
 
 
+def run_escaped_lookalikes(params, known):
+    """Two bundles created at the same instant by sources whose endpoint IDs differ only in how a character is written
+    (`dtn://esc/a%2Fb` and `dtn://esc/a/b` are different endpoint IDs; so are `.../x%41` and `.../xA` here - an
+    identity is the text, not what it would unescape to).  Each arrives in two fragments, cut at the same or at
+    different places, in all 24 interleavings: both are delivered, each with its own octets."""
+    import itertools
+    violations = []
+    kinds = set()
+    keys = set()
+    count = 0
+
+    def viol(kind, detail, case):
+        if kind in kinds:
+            return
+        kinds.add(kind)
+        v = Violation(PROP, 'reassembly', kind, dict(), '%r: %s' % (case, detail)).as_dict()
+        v['case'] = case
+        violations.append(v)
+    for ((s1, s2), cuts) in itertools.product((('dtn://esc/a%2Fb', 'dtn://esc/a/b'), ('dtn://esc/x%41', 'dtn://esc/xA')), ((3, 3), (2, 4))):
+        pay = {s1: b'first!', s2: b'SECOND'}
+
+        def frag(src, lo, hi):
+            pri = dict(flags=B.FLAG_IS_FRAGMENT, crc_type=1, dest='dtn://node/app', src=src, report_to='dtn:none', ts=(T, 9), lifetime=3600000,
+                       frag_offset=lo, total_adu=6)
+            return B.encode(dict(primary=pri, blocks=[dict(type=1, num=1, flags=0, crc_type=2, data=pay[src][lo:hi])]))
+        frags = [(s1, 0, cuts[0]), (s1, cuts[0], 6), (s2, 0, cuts[1]), (s2, cuts[1], 6)]
+        for order in itertools.permutations(range(4)):
+            count += 1
+            case = dict(sources=[s1, s2], cut_at=list(cuts), order=[(frags[i][0], frags[i][1]) for i in order])
+            world = BpWorld(dict(node_id=NODE, rx_routes=[('^dtn://node/.*', 'deliver')], tx_routes=[]))
+            for i in order:
+                world.receive(frag(*frags[i]))
+                world.quiesce()
+            keys.add('%s/%r/%r' % (s1, cuts, order))
+            if world.escaped or world.api_errors:
+                esc = (world.escaped or world.api_errors)[-1]
+                viol('exception-escaped', '%s: %s' % (esc[0], esc[2] if world.escaped else esc[1]), case)
+                continue
+            got = sorted((d['src'], b''.join(bytes.fromhex(b[2]) for b in d['blocks'] if b[0] == 1)) for d in world.probe.seen)
+            want = sorted(pay.items())
+            if got != want:
+                viol('fragments-of-different-bundles-mixed-or-lost', 'delivered %r, expected %r' % (got, want), case)
+    return dict(name=params['name'], kind='enum', evaluations=count, nontrivial_keys=sorted(keys), violations=violations, known=[], samples=[])
+
+
 def run_time_gaps(params, known):
     """Time passes between the fragments: three fragments of a bundle arrive in every order with 0 s, 11 s,
     10 min or 50 min between them (timers that become due fire), for a bundle with creation time and lifetime
@@ -502,6 +547,7 @@ def scenarios(tier):
     out.append(dict(name='secured-fragments', kind='enum', runner='run_secured_fragments', params=dict(name='secured-fragments'), weight=6))
     out.append(dict(name='long-gap', kind='enum', runner='run_long_gap', params=dict(name='long-gap'), weight=6))
     out.append(dict(name='time-gaps', kind='enum', runner='run_time_gaps', params=dict(name='time-gaps'), weight=6))
+    out.append(dict(name='escaped-lookalikes', kind='enum', runner='run_escaped_lookalikes', params=dict(name='escaped-lookalikes'), weight=4))
     # a fragmented administrative record, alone and interleaved with fragments of X
     adm = [11, 12, 13, 3, 5]
     for first in (11, 12, 13):
